@@ -1,10 +1,13 @@
 // Package c19: the two-buffer input reader (lexer/input) against the decoded source.
 //
 // Oracle (independent of the code under test): unicode/utf8.DecodeRune over the source bytes plus two
-// integers (consumed prefix, start of the pending lexeme) and the sizes of the pending runes.
+// integers (consumed prefix, start of the pending lexeme) and the sizes of the pending runes; for what a caller
+// prints of a position (Position.String, (*InputError).Error, Token.String) a hand-formatted expectation, for
+// Equal / IsZero a field-by-field comparison.
 package c19
 
 import (
+	"bytes"
 	"encoding/hex"
 	"errors"
 	"fmt"
@@ -14,6 +17,7 @@ import (
 	"time"
 	"unicode/utf8"
 
+	"github.com/moorara/algo/grammar"
 	"github.com/moorara/algo/lexer"
 	"github.com/moorara/algo/lexer/input"
 
@@ -30,7 +34,14 @@ const Rule = "cases = (source bytes, buffer size n, reader script, call sequence
 	"uncopied for the whole case and compared after every later call with a deep copy taken at receipt and with the " +
 	"source span (in every stream); non-trivial = the case reloaded a buffer " +
 	"half and also (used a reader with short reads or EOF-with-data, or consumed a rune straddling a half boundary, or " +
-	"retracted across a half boundary or at end of input), or an ill-formed sequence was reported; distinct = distinct (header, op list)"
+	"retracted across a half boundary or at end of input), or an ill-formed sequence was reported; every case gives New a file " +
+	"name (empty, plain, with a directory and a non-ASCII rune, with a space, with ':' and '='); every position that comes back " +
+	"(Lexeme, Skip, inside the *InputError of Next) is also rendered through Position.String() resp. (*InputError).Error() and " +
+	"compared byte for byte with the Model and with a hand-formatted expectation; comp=position applies Position.String/Equal/" +
+	"IsZero and Token.String/Equal to explicit values (ops pos, tok: file name empty or not, line and column positive or not, " +
+	"equal and differing in exactly one field, zero and non-zero in exactly one field, the end marker terminal, names that %q " +
+	"escapes) and is non-trivial when it rendered both forms of a position and saw Equal true and false; " +
+	"distinct = distinct (header, op list)"
 
 // ---------------------------------------------------------------- scripted reader
 
@@ -182,6 +193,160 @@ func lineCol(src []byte, p int) (off, line, col int) {
 
 func posStr(p lexer.Position) string { return fmt.Sprintf("%d %d %d", p.Offset, p.Line, p.Column) }
 
+// wantPosString is what the documentation of lexer.Position.String promises, formatted by hand (oracle; never
+// calls the code under test): the file name and a colon when there is a file name, then line:column when both
+// are known (positive), else the offset.
+func wantPosString(file string, off, line, col int) string {
+	s := ""
+	if file != "" {
+		s = file + ":"
+	}
+	if line >= 1 && col >= 1 {
+		return s + strconv.Itoa(line) + ":" + strconv.Itoa(col)
+	}
+	return s + strconv.Itoa(off)
+}
+
+// wantTerminalString: "$" for the end marker U+EEEE, else the name in double quotes with '"' and '\\' escaped
+// (only names of printable ASCII reach this).
+func wantTerminalString(name string) string {
+	if name == "\uEEEE" {
+		return "$"
+	}
+	var b strings.Builder
+	b.WriteByte('"')
+	for i := 0; i < len(name); i++ {
+		if name[i] == '"' || name[i] == '\\' {
+			b.WriteByte('\\')
+		}
+		b.WriteByte(name[i])
+	}
+	b.WriteByte('"')
+	return b.String()
+}
+
+func quoted(s string) string { return "\"" + s + "\"" }
+
+// parseStr decodes x<hex> into a string; only well-formed UTF-8 without line breaks is a value of the protocol.
+func parseStr(w string) (string, bool) {
+	if !strings.HasPrefix(w, "x") {
+		return "", false
+	}
+	b, err := hex.DecodeString(w[1:])
+	if err != nil || !utf8.Valid(b) || bytes.ContainsAny(b, "\n\r") {
+		return "", false
+	}
+	return string(b), true
+}
+
+func parsePosition(f []string) (lexer.Position, bool) {
+	if len(f) != 4 {
+		return lexer.Position{}, false
+	}
+	file, ok := parseStr(f[0])
+	off, e1 := strconv.Atoi(f[1])
+	line, e2 := strconv.Atoi(f[2])
+	col, e3 := strconv.Atoi(f[3])
+	if !ok || e1 != nil || e2 != nil || e3 != nil {
+		return lexer.Position{}, false
+	}
+	return lexer.Position{Filename: file, Offset: off, Line: line, Column: col}, true
+}
+
+func parseToken(f []string) (lexer.Token, bool) {
+	if len(f) != 6 {
+		return lexer.Token{}, false
+	}
+	term, ok1 := parseStr(f[0])
+	lex, ok2 := parseStr(f[1])
+	p, ok3 := parsePosition(f[2:])
+	if !ok1 || !ok2 || !ok3 {
+		return lexer.Token{}, false
+	}
+	if term != "\uEEEE" { // %q is modelled for printable ASCII only
+		for i := 0; i < len(term); i++ {
+			if term[i] < 0x20 || term[i] > 0x7e {
+				return lexer.Token{}, false
+			}
+		}
+	}
+	return lexer.Token{Terminal: grammar.Terminal(term), Lexeme: lex, Pos: p}, true
+}
+
+// posFields prints a position field by field (never through its own String method, which is under test).
+func posFields(p lexer.Position) string {
+	return fmt.Sprintf("{%q %d %d %d}", p.Filename, p.Offset, p.Line, p.Column)
+}
+
+func samePos(p, q lexer.Position) bool {
+	return p.Filename == q.Filename && p.Offset == q.Offset && p.Line == q.Line && p.Column == q.Column
+}
+
+// valueOp executes the ops on explicit values: pos (Position.String/Equal/IsZero) and tok (Token.String/Equal).
+// ok=false: not such an op.
+func valueOp(f []string, i int, bad func(int, string, string, ...any), tags map[string]bool) (out string, ok bool) {
+	switch f[0] {
+	case "pos":
+		if len(f) != 9 {
+			return "bad-op", true
+		}
+		p, ok1 := parsePosition(f[1:5])
+		q, ok2 := parsePosition(f[5:9])
+		if !ok1 || !ok2 {
+			return "bad-op", true
+		}
+		ps, qs, eq, pz, qz := p.String(), q.String(), p.Equal(q), p.IsZero(), q.IsZero()
+		out = fmt.Sprintf("ok %s %s eq=%t zero=%t,%t", quoted(ps), quoted(qs), eq, pz, qz)
+		for _, x := range []struct {
+			p    lexer.Position
+			s    string
+			zero bool
+		}{{p, ps, pz}, {q, qs, qz}} {
+			if want := wantPosString(x.p.Filename, x.p.Offset, x.p.Line, x.p.Column); x.s != want {
+				bad(i, "", "Position%s.String() = %q, want %q", posFields(x.p), x.s, want)
+			}
+			if want := x.p.Filename == "" && x.p.Offset == 0 && x.p.Line == 0 && x.p.Column == 0; x.zero != want {
+				bad(i, "", "Position%s.IsZero() = %t", posFields(x.p), x.zero)
+			}
+			tags[map[bool]string{true: "pos-file", false: "pos-nofile"}[x.p.Filename != ""]] = true
+			tags[map[bool]string{true: "pos-linecol", false: "pos-offset-only"}[x.p.Line > 0 && x.p.Column > 0]] = true
+			tags[map[bool]string{true: "pos-zero", false: "pos-nonzero"}[x.zero]] = true
+		}
+		if eq != samePos(p, q) {
+			bad(i, "", "Position%s.Equal(%s) = %t", posFields(p), posFields(q), eq)
+		}
+		tags[map[bool]string{true: "pos-equal", false: "pos-unequal"}[eq]] = true
+		return out, true
+	case "tok":
+		if len(f) != 13 {
+			return "bad-op", true
+		}
+		t, ok1 := parseToken(f[1:7])
+		u, ok2 := parseToken(f[7:13])
+		if !ok1 || !ok2 {
+			return "bad-op", true
+		}
+		ts, us, eq := t.String(), u.String(), t.Equal(u)
+		out = fmt.Sprintf("ok %s %s eq=%t", quoted(ts), quoted(us), eq)
+		for _, x := range []struct {
+			t lexer.Token
+			s string
+		}{{t, ts}, {u, us}} {
+			want := wantTerminalString(string(x.t.Terminal)) + " <" + x.t.Lexeme + ", " +
+				wantPosString(x.t.Pos.Filename, x.t.Pos.Offset, x.t.Pos.Line, x.t.Pos.Column) + ">"
+			if x.s != want {
+				bad(i, "", "Token.String() = %q, want %q", x.s, want)
+			}
+		}
+		if want := t.Terminal == u.Terminal && t.Lexeme == u.Lexeme && samePos(t.Pos, u.Pos); eq != want {
+			bad(i, "", "Token{%q %q %s}.Equal(Token{%q %q %s}) = %t", string(t.Terminal), t.Lexeme, posFields(t.Pos), string(u.Terminal), u.Lexeme, posFields(u.Pos), eq)
+		}
+		tags[map[bool]string{true: "tok-equal", false: "tok-unequal"}[eq]] = true
+		return out, true
+	}
+	return "", false
+}
+
 // ---------------------------------------------------------------- executor
 
 func Exec(c hx.Case) hx.Result {
@@ -203,8 +368,12 @@ func exec(c hx.Case) hx.Result {
 	srcHex := strings.TrimPrefix(hx.HeaderGet(c.Header, "src"), "x")
 	src, _ := hex.DecodeString(srcHex)
 	sc, okReader := parseReader(hx.HeaderGet(c.Header, "reader"), len(src))
+	file, okFile := "", true
+	if w := hx.HeaderGet(c.Header, "file"); w != "" {
+		file, okFile = parseStr(w)
+	}
 	res := hx.Result{BadOp: -1}
-	if !okReader || n < 1 {
+	if !okReader || !okFile || n < 1 {
 		for range c.Ops {
 			res.Outs = append(res.Outs, "bad-case")
 		}
@@ -262,7 +431,11 @@ func exec(c hx.Case) hx.Result {
 		var check func()
 		hung := false
 		kind := hx.Try(func() {
-			if closed {
+			if vout, isValueOp := valueOp(f, i, bad, tags); isValueOp {
+				out = vout
+				return
+			}
+			if closed && len(f) == 1 {
 				out = "ok noinput"
 				return
 			}
@@ -272,7 +445,7 @@ func exec(c hx.Case) hx.Result {
 			switch f[0] {
 			case "new":
 				var err error
-				in, err = input.New("", rd, n)
+				in, err = input.New(file, rd, n)
 				switch {
 				case err == nil:
 					out = "ok"
@@ -295,7 +468,13 @@ func exec(c hx.Case) hx.Result {
 				case err == io.EOF:
 					out = "ok err eof"
 				case errors.As(err, &ie):
-					out = "ok err utf8 " + posStr(ie.Pos)
+					text := err.Error()
+					out = "ok err utf8 " + posStr(ie.Pos) + " " + quoted(text)
+					// formatting, whatever the stream: Error() is the position as Position.String documents it, ": ", the description
+					if want := wantPosString(file, ie.Pos.Offset, ie.Pos.Line, ie.Pos.Column) + ": " + ie.Description; text != want {
+						bad(i, "", "the error of next reads %q, want %q (file name given to New %q, position %s)", text, want, file, posFields(ie.Pos))
+					}
+					tags["error-text"] = true
 				default:
 					out = "ok err other"
 				}
@@ -322,6 +501,12 @@ func exec(c hx.Case) hx.Result {
 							bad(i, sig, "ill-formed UTF-8 at byte %d reported as the ordinary end of input (io.EOF)", pos)
 						} else {
 							tags["invalid-utf8-reported"] = true
+							// the error names the place of the ill-formed sequence: line and column of its first byte
+							if _, line, col := lineCol(src, pos); ie != nil {
+								if want := wantPosString(file, -1, line, col) + ": invalid utf-8 character"; err.Error() != want {
+									bad(i, "", "ill-formed UTF-8 at byte %d (line %d, column %d) reported as %q, want %q", pos, line, col, err.Error(), want)
+								}
+							}
 						}
 						return
 					}
@@ -372,7 +557,11 @@ func exec(c hx.Case) hx.Result {
 					return
 				}
 				s, p := in.Lexeme()
-				out = "ok x" + hex.EncodeToString([]byte(s)) + " " + posStr(p)
+				ps := p.String()
+				out = "ok x" + hex.EncodeToString([]byte(s)) + " " + posStr(p) + " " + quoted(ps)
+				if want := wantPosString(file, p.Offset, p.Line, p.Column); ps != want {
+					bad(i, "", "the position of the lexeme reads %q, want %q (file name given to New %q, position %s)", ps, want, file, posFields(p))
+				}
 				kl := keptLexeme{op: i, got: s, clone: strings.Clone(s)}
 				if checked && !stop && pos <= len(src) && begin <= pos {
 					kl.want, kl.wanted = string(src[begin:pos]), true
@@ -385,17 +574,25 @@ func exec(c hx.Case) hx.Result {
 						bad(i, "", "lexeme = %q, the pending part of the source is %q", s, want)
 					} else if p.Line != line || p.Column != col {
 						bad(i, "", "lexeme %q reported at %d:%d, its first rune is at %d:%d", s, p.Line, p.Column, line, col)
+					} else if want := wantPosString(file, -1, line, col); ps != want {
+						bad(i, "", "lexeme %q: its position reads %q, its first rune is at %q", s, ps, want)
 					}
 					begin, sizes = pos, sizes[:0]
 					lastWasNextOK = false
 				}
 			case "skip":
 				p := in.Skip()
-				out = "ok " + posStr(p)
+				ps := p.String()
+				out = "ok " + posStr(p) + " " + quoted(ps)
+				if want := wantPosString(file, p.Offset, p.Line, p.Column); ps != want {
+					bad(i, "", "the position returned by skip reads %q, want %q (file name given to New %q, position %s)", ps, want, file, posFields(p))
+				}
 				check = func() {
 					_, line, col := lineCol(src, begin)
 					if p.Line != line || p.Column != col {
 						bad(i, "", "skip reported %d:%d, the skipped span starts at %d:%d", p.Line, p.Column, line, col)
+					} else if want := wantPosString(file, -1, line, col); ps != want {
+						bad(i, "", "skip: its position reads %q, the skipped span starts at %q", ps, want)
 					}
 					begin, sizes = pos, sizes[:0]
 					lastWasNextOK = false
@@ -443,7 +640,13 @@ func exec(c hx.Case) hx.Result {
 	tags["comp="+comp] = true
 	tags["n="+strconv.Itoa(n)] = true
 	res.Nontrivial = (tags["reload"] && (tags["short-reads"] || tags["data-with-eof"] || tags["rune-straddles-halves"] ||
-		tags["retract-across-halves"] || tags["retract-at-eof"])) || tags["invalid-utf8-reported"]
+		tags["retract-across-halves"] || tags["retract-at-eof"])) || tags["invalid-utf8-reported"] ||
+		(comp == "position" && tags["pos-linecol"] && tags["pos-offset-only"] && tags["pos-equal"] && tags["pos-unequal"])
+	if file != "" {
+		tags["file-name"] = true
+	} else {
+		tags["no-file-name"] = true
+	}
 	for t := range tags {
 		res.Tags = append(res.Tags, t)
 	}
@@ -643,8 +846,145 @@ func genOps(r *hx.Rand, src []byte, n int, length int, keep bool) []string {
 	return ops
 }
 
-func header(comp string, src []byte, n int, reader string) string {
-	return fmt.Sprintf("comp=%s src=x%s n=%d reader=%s", comp, hex.EncodeToString(src), n, reader)
+func header(comp string, src []byte, n int, reader string, file string) string {
+	return fmt.Sprintf("comp=%s src=x%s n=%d reader=%s file=x%s", comp, hex.EncodeToString(src), n, reader, hex.EncodeToString([]byte(file)))
+}
+
+// file names given to New: none (twice as likely), plain, with a directory and a non-ASCII rune, with a space,
+// with the separators of the rendering and of the header
+var fileNames = []string{"", "", "a.src", "dir/\u00fc.txt", "x y", "a:b=c"}
+
+// ---- explicit positions and tokens (ops pos, tok)
+
+func hexStr(s string) string { return "x" + hex.EncodeToString([]byte(s)) }
+
+func posArgs(p lexer.Position) string {
+	return fmt.Sprintf("%s %d %d %d", hexStr(p.Filename), p.Offset, p.Line, p.Column)
+}
+
+func posOp(p, q lexer.Position) string { return "pos " + posArgs(p) + " " + posArgs(q) }
+
+func tokOp(t, u lexer.Token) string {
+	return "tok " + hexStr(string(t.Terminal)) + " " + hexStr(t.Lexeme) + " " + posArgs(t.Pos) + " " +
+		hexStr(string(u.Terminal)) + " " + hexStr(u.Lexeme) + " " + posArgs(u.Pos)
+}
+
+// systematicValueOps: every branch of Position.String / Equal / IsZero and Token.String / Equal, the same on every run:
+// file name empty / not, (line, column) both positive / line not / column not / neither, equal, differing in exactly
+// one field, zero, non-zero in exactly one field; tokens equal, differing in terminal / lexeme / position, the end marker,
+// names with characters %q escapes.
+func systematicValueOps() []string {
+	var ops []string
+	for _, f := range []string{"", "a.src"} {
+		for _, lc := range [][2]int{{3, 5}, {0, 5}, {3, 0}, {0, 0}, {-1, 4}, {2, -7}, {1, 1}} {
+			p := lexer.Position{Filename: f, Offset: 17, Line: lc[0], Column: lc[1]}
+			ops = append(ops, posOp(p, p))
+		}
+	}
+	base := lexer.Position{Filename: "a.src", Offset: 17, Line: 3, Column: 5}
+	for k := 0; k < 4; k++ {
+		q := base
+		switch k {
+		case 0:
+			q.Filename = "b.src"
+		case 1:
+			q.Offset++
+		case 2:
+			q.Line++
+		case 3:
+			q.Column++
+		}
+		ops = append(ops, posOp(base, q), posOp(q, base))
+	}
+	var zero lexer.Position
+	ops = append(ops, posOp(zero, zero), posOp(zero, base))
+	for k := 0; k < 4; k++ {
+		q := zero
+		switch k {
+		case 0:
+			q.Filename = "f"
+		case 1:
+			q.Offset = 1
+		case 2:
+			q.Line = 1
+		case 3:
+			q.Column = 1
+		}
+		ops = append(ops, posOp(q, zero))
+	}
+	ops = append(ops, posOp(lexer.Position{Offset: -4}, lexer.Position{Offset: -4, Line: -1, Column: -1}))
+	t := lexer.Token{Terminal: "ID", Lexeme: "foo", Pos: base}
+	ops = append(ops, tokOp(t, t))
+	for k := 0; k < 3; k++ {
+		u := t
+		switch k {
+		case 0:
+			u.Terminal = "NUM"
+		case 1:
+			u.Lexeme = "bar"
+		case 2:
+			u.Pos.Column++
+		}
+		ops = append(ops, tokOp(t, u), tokOp(u, t))
+	}
+	ops = append(ops,
+		tokOp(lexer.Token{Terminal: grammar.Endmarker, Pos: zero}, lexer.Token{Terminal: "$", Lexeme: "$", Pos: lexer.Position{Offset: 9}}),
+		tokOp(lexer.Token{Terminal: "\"", Lexeme: "\"", Pos: base}, lexer.Token{Terminal: "a\\b", Lexeme: "a\\b", Pos: zero}),
+		tokOp(lexer.Token{Terminal: "", Lexeme: "", Pos: zero}, lexer.Token{Terminal: "+", Lexeme: "\u00e9 \u20ac", Pos: lexer.Position{Filename: "x y", Line: 1, Column: 1}}))
+	return ops
+}
+
+var (
+	posInts   = []int{-3, -1, 0, 0, 1, 1, 2, 7, 45, 1000}
+	termNames = []string{"ID", "NUM", "+", "if", "\"", "a\\b", "", "\uEEEE", "$", " "}
+	lexemes   = []string{"", "x", "foo", "foo bar", "\u00e9\u20ac", "42", "\"q\"", "<a, b>"}
+)
+
+func genPosition(r *hx.Rand) lexer.Position {
+	return lexer.Position{Filename: hx.Pick(r, fileNames), Offset: hx.Pick(r, posInts), Line: hx.Pick(r, posInts), Column: hx.Pick(r, posInts)}
+}
+
+// mutatePosition: the same position, or one differing in exactly one field, or an unrelated one
+func mutatePosition(r *hx.Rand, p lexer.Position) lexer.Position {
+	q := p
+	switch r.Intn(7) {
+	case 0, 1:
+	case 2:
+		q.Filename += "~"
+	case 3:
+		q.Offset += r.Range(1, 3)
+	case 4:
+		q.Line -= r.Range(1, 3)
+	case 5:
+		q.Column += r.Range(1, 3)
+	default:
+		q = genPosition(r)
+	}
+	return q
+}
+
+func genValueOp(r *hx.Rand) string {
+	if r.Chance(2, 3) {
+		p := genPosition(r)
+		if r.Chance(1, 8) {
+			p = lexer.Position{}
+		}
+		return posOp(p, mutatePosition(r, p))
+	}
+	t := lexer.Token{Terminal: grammar.Terminal(hx.Pick(r, termNames)), Lexeme: hx.Pick(r, lexemes), Pos: genPosition(r)}
+	u := t
+	switch r.Intn(6) {
+	case 0, 1:
+	case 2:
+		u.Terminal = grammar.Terminal(hx.Pick(r, termNames))
+	case 3:
+		u.Lexeme = hx.Pick(r, lexemes)
+	case 4:
+		u.Pos = mutatePosition(r, t.Pos)
+	default:
+		u = lexer.Token{Terminal: grammar.Terminal(hx.Pick(r, termNames)), Lexeme: hx.Pick(r, lexemes), Pos: genPosition(r)}
+	}
+	return tokOp(t, u)
 }
 
 func maxRuneFor(n int) int {
@@ -670,7 +1010,7 @@ func Main(run *hx.Run) {
 	for k, cnt := 0, run.Scale(1500); k < cnt; k++ {
 		n := hx.Pick(r, bufSizes)
 		src := genSource(r, n, maxRuneFor(n), pickLen(r, n))
-		c := hx.Case{Header: header("input", src, n, genReader(r, n, len(src), false)),
+		c := hx.Case{Header: header("input", src, n, genReader(r, n, len(src), false), hx.Pick(r, fileNames)),
 			Ops: genOps(r, src, n, r.Range(6, 120), true)}
 		run.Do("input", c, Exec)
 	}
@@ -684,7 +1024,7 @@ func Main(run *hx.Run) {
 		for j := 0; j < utf8.RuneCount(src)+2; j++ {
 			ops = append(ops, "next")
 		}
-		run.Do("stream", hx.Case{Header: header("stream", src, n, genReader(r, n, len(src), false)), Ops: ops}, Exec)
+		run.Do("stream", hx.Case{Header: header("stream", src, n, genReader(r, n, len(src), false), hx.Pick(r, fileNames)), Ops: ops}, Exec)
 	}
 
 	// 3. ill-formed UTF-8 of every class, at every alignment with the halves (a truncated sequence here is always
@@ -699,7 +1039,7 @@ func Main(run *hx.Run) {
 			src = append(src, hx.Pick(r, invalid)...)
 		}
 		src = append(src, genSource(r, n, maxRuneFor(n), r.Intn(n+2))...)
-		c := hx.Case{Header: header("input", src, n, genReader(r, n, len(src), false)),
+		c := hx.Case{Header: header("input", src, n, genReader(r, n, len(src), false), hx.Pick(r, fileNames)),
 			Ops: genOps(r, src, n, r.Range(6, 80), true)}
 		run.Do("input", c, Exec)
 	}
@@ -712,7 +1052,7 @@ func Main(run *hx.Run) {
 		for j := n * r.Range(1, 2); j < len(src); j += n * r.Range(1, 2) {
 			src[j] = 0
 		}
-		c := hx.Case{Header: header("input", src, n, genReader(r, n, len(src), false)),
+		c := hx.Case{Header: header("input", src, n, genReader(r, n, len(src), false), hx.Pick(r, fileNames)),
 			Ops: genOps(r, src, n, r.Range(6, 80), true)}
 		run.Do("input", c, Exec)
 	}
@@ -725,19 +1065,48 @@ func Main(run *hx.Run) {
 		if r.Chance(1, 8) {
 			src = append(src, hx.Pick(r, invalid)...)
 		}
-		c := hx.Case{Header: header("wild", src, n, genReader(r, n, len(src), r.Bool())),
+		c := hx.Case{Header: header("wild", src, n, genReader(r, n, len(src), r.Bool()), hx.Pick(r, fileNames)),
 			Ops: genOps(r, src, n, r.Range(6, 100), false)}
 		run.Do("wild", c, Exec)
 	}
 
-	// 6. the two known findings, a fixed small number of cases and last, so that they can never crowd out
+	// 6. Position.String / Equal / IsZero and Token.String / Equal on explicit values: one systematic case that reaches
+	//    every branch on every run, then random values; some cases interleave them with calls on an Input whose
+	//    source has an ill-formed sequence (so that the rendered error text, lexeme positions and explicit values
+	//    appear in one history)
+	r = run.R.Fork("position")
+	run.Do("position", hx.Case{Header: header("position", []byte("a"), 1, "full", ""), Ops: systematicValueOps()}, Exec)
+	for k, cnt := 0, run.Scale(120); k < cnt; k++ {
+		n := hx.Pick(r, bufSizes)
+		src := genSource(r, n, maxRuneFor(n), r.Intn(2*n+2))
+		if r.Bool() {
+			src = append(src, hx.Pick(r, invalid)...)
+		}
+		var ops []string
+		if r.Chance(1, 3) {
+			for j, m := 0, r.Range(4, 24); j < m; j++ {
+				ops = append(ops, genValueOp(r))
+			}
+		} else {
+			for _, op := range genOps(r, src, n, r.Range(4, 40), true) {
+				ops = append(ops, op)
+				for r.Chance(1, 3) {
+					ops = append(ops, genValueOp(r))
+				}
+			}
+		}
+		c := hx.Case{Header: header("position", src, n, genReader(r, n, len(src), false), hx.Pick(r, fileNames)), Ops: ops}
+		run.Do("position", c, Exec)
+	}
+
+	// 7. the two known findings, a fixed small number of cases and last, so that they can never crowd out
 	//    another violation: a truncated multi-byte sequence at the very end of the source (reported as io.EOF),
 	//    a NUL elsewhere than at the first byte of a half (taken for the sentinel)
 	r = run.R.Fork("known")
 	for k := 0; k < 6; k++ {
 		n := hx.Pick(r, bufSizes)
 		src := append(genSource(r, n, maxRuneFor(n), r.Intn(3*n+2)), hx.Pick(r, truncated)...)
-		c := hx.Case{Header: header("input", src, n, genReader(r, n, len(src), false)),
+		c := hx.Case{Header: header("input", src, n, genReader(r, n, len(src), false), hx.Pick(r, fileNames)),
 			Ops: genOps(r, src, n, r.Range(20, 80), true)}
 		run.Do("input", c, Exec)
 	}
@@ -745,7 +1114,7 @@ func Main(run *hx.Run) {
 		n := hx.Pick(r, bufSizes[1:8])
 		src := genSource(r, n, 1, r.Range(2, 4)*n)
 		src[r.Range(0, len(src)/n-1)*n+r.Range(1, n-1)] = 0
-		c := hx.Case{Header: header("input", src, n, genReader(r, n, len(src), false)),
+		c := hx.Case{Header: header("input", src, n, genReader(r, n, len(src), false), hx.Pick(r, fileNames)),
 			Ops: genOps(r, src, n, r.Range(20, 80), true)}
 		run.Do("input", c, Exec)
 	}
@@ -765,7 +1134,7 @@ func Main(run *hx.Run) {
 							if !keeps(src, n, ops) {
 								comp = "wild"
 							}
-							run.Do(comp, hx.Case{Header: header(comp, src, n, rdr), Ops: append([]string{"new"}, ops...)}, Exec)
+							run.Do(comp, hx.Case{Header: header(comp, src, n, rdr, fileNames[count%len(fileNames)]), Ops: append([]string{"new"}, ops...)}, Exec)
 							count++
 						})
 					}
